@@ -1,4 +1,4 @@
-"""History monitors for the world stream (group topics). They read the op lines and the implementation's output lines
+"""History monitors for the world stream (group and peer-to-peer topics). They read the op lines and the implementation's output lines
 only (never the model's), so they decide whether a *changed* implementation still satisfies a property on a concrete history.
 Every monitor returns a list of (index_of_failing_line, why) with `why` naming the specific rule that failed."""
 import re
